@@ -285,7 +285,35 @@ Definition check_inner (d : dconfig) (inner : list json) : option (option json) 
       | None => None end
   end.
 
-Definition ok12_element (d : dconfig) (v : json) (o : dobs) : bool :=
+(* the code of the error handling this request raises, by the configuration's own reading (None: it succeeds) *)
+Definition expected_raise (d : dconfig) (ctx : json) (r : request) : option Z :=
+  match find_method d (r_method r) with
+  | None => Some MethodNotFoundError_code
+  | Some m =>
+      if bind_fails m then Some InternalError_code
+      else if negb (binds d ctx r) then Some InvalidParamsError_code
+      else match rmethod_of m ctx (r_params r) with
+           | MRan _ (ORpc x) => Some (e_code x)
+           | MRan _ (OExc _) => Some ServerError_code
+           | _ => None end
+  end.
+(* when handling fails and handlers are configured for it, they do run (first event: a generic handler, else one of the raised code) *)
+Definition handlers_ran (d : dconfig) (ctx : json) (r : request) (inner : list json) : bool :=
+  match expected_raise d ctx r with
+  | None => true
+  | Some c =>
+      match ehs_of None (dc_ehs d), ehs_of (Some c) (dc_ehs d) with
+      | [], [] => true
+      | _, _ =>
+          match filter (ev_is "eh") inner with
+          | e :: _ => match ev_eh e with
+                      | Some (_, _, raised) => option_eqb Z.eqb (code_of_err raised) (Some c)
+                      | None => false end
+          | [] => false end
+      end
+  end.
+
+Definition ok12_element (d : dconfig) (ctx : json) (v : json) (o : dobs) : bool :=
   match req_of v with
   | None => true
   | Some r =>
@@ -308,6 +336,9 @@ Definition ok12_element (d : dconfig) (v : json) (o : dobs) : bool :=
                   | _, _ => false end)
                  && (if Z.ltb depth (Z.of_nat n) then match inner with [] => true | _ => false end
                      else
+                       (* the rewrites of this configuration's middlewares leave the method and arguments of the judged
+                          request alone only when there are none; judge "handlers ran" where the inner request is the original *)
+                       (if json_equiv r_in (show_req r) && negb (existsb short_circuits (dc_mws d)) then handlers_ran d ctx r inner else true) &&
                        match check_inner d inner with
                        | Some None => true
                        | Some (Some final) =>
@@ -334,10 +365,11 @@ Definition ok12 (c : c02case) : bool :=
       if accepted d elems
       then Nat.eqb (List.length elem_obs) (List.length elems)
            && list_eqb json_equiv (snd o) (List.concat (map snd elem_obs))      (* each element once, in request order *)
-           && forallb (fun eo => ok12_element d (fst eo) (snd eo) && ok12_success_silent d (snd eo)) (combine elems elem_obs)
+           && dout_eqb (fst o) (fst (collect_obs elem_obs))                     (* what the chains returned is what is sent *)
+           && forallb (fun eo => ok12_element d ctx (fst eo) (snd eo) && ok12_success_silent d (snd eo)) (combine elems elem_obs)
       else match snd o with [] => true | _ => false end                         (* rejected before dispatch: nothing runs *)
   | LOk v => match req_of v with
-             | Some _ => ok12_element d v o && ok12_success_silent d o
+             | Some _ => ok12_element d ctx v o && ok12_success_silent d o
              | None => match snd o with [] => true | _ => false end end
   | _ => match snd o with [] => true | _ => false end
   end.
